@@ -99,6 +99,11 @@ def check(case):
     if proot is not None:
         labels.append("prescribed_root")
     large = bool(case.get("_large"))
+    if not large and len(inst.oleaves) > 5 and (inst.c["SEGMENTAL_LOSS"] == 0 or (inst.c["FULL_LOSS"] == 0 and inst.c["HORIZONTAL_TRANSFER"] == 0)):
+        # above 5 leaves (thorough tier) free labellings or free losses and transfers make the ALL sets explode (millions of
+        # co-optimal solutions): those cases are decided on costs under policy ANY, like the large class
+        large = True
+        labels.append("ALL_skipped_free_costs")
     if large:
         labels.append("large")
     opt_ext, set_ext = reference(inst, "ordered", labels=labels, want_set=not large)
